@@ -92,8 +92,14 @@ def run(parse, text, pos=0, fullparse=True, spans=False, time_limit=1.0, raw=Fal
     kind: RET | PARTIAL | ERROR | EXC | DIVERGES
     """
     mod = sys.modules.get(getattr(parse, '__module__', None))
+    if time_limit is None:
+        # no wall budget (signals reach the main thread only): the caller supervises termination itself
+        import contextlib
+        guard = contextlib.nullcontext()
+    else:
+        guard = budget(time_limit)
     try:
-        with budget(time_limit):
+        with guard:
             try:
                 v = parse(text, pos, fullparse)
                 out = {'kind': 'RET', 'value': v if raw else canon(v, spans)}
